@@ -62,6 +62,30 @@ CLAIMED = {
         note="Trusted: Coq kernel, translator, harness; hand transcription of merge/write_config/close_shard (pinned + compared after every session); pydantic JSON round trip; shard writers; digest = write event.",
         technique="Coq proof (induction over the merge recursion: exactness, footprint, preservation) + AST-pinned transcription + differential histories with an exactness oracle",
         design="7/C04"),
+    "C02": dict(
+        text="Coq theorems for every combinator the iteration interfaces are built from, each for all sizes and all random sequences: the shuffle buffer and the round robin (pull machines whose fill test "
+             "and LCG constants are regenerated, and whose source text is pinned, from itertools.py) end and yield a permutation of their input; the batches of the unshuffled concurrent reader concatenate to the path list; "
+             "the lazy pool yields one result per input under every schedule (C13). PARTIAL: the composition inside each as_* method, the depth-first shard list over nested lists and the tf.data/Rust paths are not theorems; "
+             "they are checked by whole-pipeline runs: every interface x shuffle x file_parallelism x process_record on generated datasets must yield exactly the multiset stored in the split (independently decoded), "
+             "process_record applied once per example. The machines equal the real generators element by element under the real LCG.",
+        note="Trusted: Coq kernel, translator, harness; ThreadPoolExecutor.map ordered; asyncstdlib mirrors; tf.data multiset-preserving (oracle).",
+        technique="Coq proof (permutation invariants + termination measures of pull machines) + AST-pinned sources + differential pipelines",
+        design="7/C02"),
+    "C14": dict(
+        text="Coq theorems, each an invariant over arbitrary (finite or endless) sources: shuffle buffer pulled <= yielded + b; round robin never more than b inner iterators open and opened <= b + exhausted; "
+             "lazy pool under every schedule inputs taken <= 2T+2 + results yielded; every batch of the ordered concurrent reader holds <= T paths. "
+             "PARTIAL: the per-interface composition bounds (e.g. 3T+2+k shard files for the shuffled concurrent reader) are derived by hand and checked by runs that count shard files opened at every yield "
+             "(audit-hook spy, slow consumer, finite and repeating streams, take k); Rust and tf.data read-ahead are not observable by the spy.",
+        note="Trusted: Coq kernel, translator, harness; every shard holds >= 1 example (C10).",
+        technique="Coq proof (read-ahead invariants over arbitrary sources and schedules) + shard-open spy on real pipelines",
+        design="7/C14"),
+    "C19": dict(
+        text="Coq theorems: the repeating unshuffled path stream is periodic (k-th element = (k mod N)-th path, all k); a shuffle buffer over the endless cycle of a non-empty list only ever yields elements of that list "
+             "(every buffer size, every random sequence, every moment). PARTIAL: whole interfaces are checked on prefixes of 2-3 epochs (+0..2): unshuffled streams must equal the one-pass sequence repeated, shuffled streams "
+             "must stay in the split, every Rust epoch must be a permutation, and two repeating streams pulled alternately must not interfere.",
+        note="Trusted: Coq kernel, translator, harness; itertools.cycle; RustGenerator epoch loop and tf.data repeat validated on the implementation only.",
+        technique="Coq proof (periodicity, subset invariant on an endless source) + differential multi-epoch prefixes incl. interleaved streams",
+        design="7/C19"),
     "C05": dict(
         text="Coq theorems about an abstract model of Dataset.check (digest of each list file against its parent's record, recursion into the children named by the file on disk, "
              "then every shard the iterator finds), shape pinned statement by statement against the source: a committed tree passes; and for ANY file system fs', if the check passes then every "
